@@ -31,6 +31,13 @@ import (
 // violation (repaired in /repo by 33272cd; corpus/C28/overlong-proof-40.json).
 const flagOverlong = true
 
+// limits for a case to take part in the Coq evaluation (beyond them coqc runs out of stack
+// while reading the term; the quick tier stays far below)
+const (
+	maxCoqTerm = 400 << 10
+	maxCoqOps  = 12000
+)
+
 type opSpec struct {
 	K      string   `json:"k"` // add | addraw | header | finalize | setlen | reopen | prove | verify | bnew | badd
 	H      string   `json:"h,omitempty"`
@@ -1021,7 +1028,12 @@ func emit(c *hxlib.Ctx, kind string, sc scenario) {
 	cs := hxlib.Case{Kind: kind, Input: sc, Nontrivial: r.nontriv || r.proofs > 0 && r.maxLen > 16, OracleErr: r.oracle,
 		Key: fmt.Sprintf("%s|%d|%d", sc.Name, len(sc.Ops), c.Rand.Int63())}
 	if !c.OracleOnly {
-		cs.Coq = "(" + r.coqCase() + ")%uint63"
+		// coqc overflows its stack on very large single terms: such scripts stay oracle-only
+		if t := r.coqCase(); len(t) <= maxCoqTerm && len(r.ops) <= maxCoqOps && len(r.tbl) <= maxCoqOps {
+			cs.Coq = "(" + t + ")%uint63"
+		} else {
+			c.Note("%s (%d ops, %d KB as a Coq term): direct oracle only", sc.Name, len(r.ops), len(t)/1024)
+		}
 	}
 	c.Emit(cs)
 }
